@@ -40,8 +40,13 @@ def run(ctx):
         script = os.path.join(tmp, "s%d" % i)
         log = os.path.join(tmp, "l%d" % i)
         open(script, "w").write("fail\n" if fail else (pattern.hex() + "\n"))
-        runs.append(dict(args=(args if args is not None else ["new", "-n", str(L)]),
-                         env=dict(LD_PRELOAD=shim, HDW_SHIM_SCRIPT=script, HDW_SHIM_LOG=log, HDW_SHIM_DEFAULT="fail")))
+        env = dict(LD_PRELOAD=shim, HDW_SHIM_SCRIPT=script, HDW_SHIM_LOG=log, HDW_SHIM_DEFAULT="fail")
+        if i % 3 == 1:
+            # variables named after the options (and the account variables of the other commands) do not influence `new`
+            other = "12" if L != 12 else "24"
+            env.update(LENGTH=other, N=other, HDWALLET_LENGTH=other, LANGUAGE="english", VANITY_PREFIX="0xf", VANITY_THREADS="3", VANITY_PASSWORD="x",
+                       MNEMONIC="test test test test test test test test test test test junk", PASSWORD="x", ACCOUNT_INDEX="4")
+        runs.append(dict(args=(args if args is not None else ["new", "-n", str(L)]), env=env))
         meta.append((L, pattern, fail, log))
 
     for L in range(0, 41):
@@ -124,6 +129,11 @@ def run(ctx):
                      ["new", "--vanity-prefix", "0x00", "-j", "3"]):
             eruns.append(dict(args=args, timeout=30, env=dict(LD_PRELOAD=shim, HDW_SHIM_DEFAULT="fail:" + e)))
             emeta.append(("persistent", e, None))
+    # ... and `new` under every errno value 1..133, persistently (EPIPE, EBADF, ... none is special)
+    for e in range(1, 134):
+        eruns.append(dict(args=["new"] + rng.choice([[], ["-n", "24"], ["--vanity-prefix", "0x0", "-j", str(rng.choice([0, 1, 2]))]]), timeout=30,
+                          env=dict(LD_PRELOAD=shim, HDW_SHIM_DEFAULT="fail:%d" % e)))
+        emeta.append(("persistent", str(e), None))
     for e in ("EINTR", "EAGAIN", "EIO"):
         for k in (1, 2, 3, 4, 5, 9):
             for L in (12, 24):
